@@ -73,6 +73,13 @@ class _Canon(ast.NodeTransformer):
             return ast.copy_location(ast.AugAssign(target=ast.Name(id=n.targets[0].id, ctx=ast.Store()), op=n.value.op, value=n.value.right), n)
         return n
 
+    # ---- C3 for conditional expressions:  b if not c else a   ->   a if c else b
+    def visit_IfExp(self, n):
+        self.generic_visit(n)
+        if isinstance(n.test, ast.UnaryOp) and isinstance(n.test.op, ast.Not):
+            n.test, n.body, n.orelse = n.test.operand, n.orelse, n.body
+        return n
+
     # ---- C5
     def visit_Call(self, n):
         self.generic_visit(n)
@@ -100,9 +107,21 @@ class _Canon(ast.NodeTransformer):
             return _Canon._leaves(last.body) and _Canon._leaves(last.orelse)
         return False
 
-    def _flatten_exits(self, body):
+    def _flatten_exits(self, body, elif_leg=False):
         out = []
         for st in body:
+            plain = isinstance(st, ast.If) and st.orelse and not (len(st.orelse) == 1 and isinstance(st.orelse[0], ast.If))
+            negated = plain and isinstance(st.test, ast.UnaryOp) and isinstance(st.test.op, ast.Not)
+            if plain and elif_leg:
+                # the last leg of an elif ladder keeps its place in the ladder; only its polarity is normalised
+                if negated:
+                    st.test, st.body, st.orelse = st.test.operand, st.orelse, st.body
+                out.append(st)
+                continue
+            if plain and _Canon._leaves(st.orelse) and not _Canon._leaves(st.body):
+                # only the else branch leaves: it becomes the guard (`if not t: <else>`), the former body follows it
+                neg = st.test.operand if negated else ast.copy_location(ast.UnaryOp(op=ast.Not(), operand=st.test), st.test)
+                st.test, st.body, st.orelse = neg, st.orelse, st.body
             if isinstance(st, ast.If) and st.orelse and _Canon._leaves(st.body):
                 tail = st.orelse
                 st.orelse = []
@@ -239,11 +258,14 @@ class _InlineTests(ast.NodeTransformer):
         out, i = [], 0
         while i < len(body):
             s, nxt = body[i], (body[i + 1] if i + 1 < len(body) else None)
-            if (fn is not None and isinstance(s, ast.Assign) and len(s.targets) == 1 and isinstance(s.targets[0], ast.Name)
-                    and isinstance(nxt, (ast.If, ast.While)) and isinstance(nxt.test, ast.Name) and nxt.test.id == s.targets[0].id and self._single(fn, s.targets[0].id)):
-                nxt.test = s.value
-                i += 1
-                continue
+            if fn is not None and isinstance(s, ast.Assign) and len(s.targets) == 1 and isinstance(s.targets[0], ast.Name) and isinstance(nxt, (ast.If, ast.While)):
+                t = nxt.test
+                neg = isinstance(t, ast.UnaryOp) and isinstance(t.op, ast.Not)
+                core = t.operand if neg else t
+                if isinstance(core, ast.Name) and core.id == s.targets[0].id and self._single(fn, s.targets[0].id):
+                    nxt.test = ast.copy_location(ast.UnaryOp(op=ast.Not(), operand=s.value), t) if neg else s.value
+                    i += 1
+                    continue
             out.append(s)
             i += 1
         return out
@@ -277,7 +299,8 @@ class _Flatten(ast.NodeTransformer):
             if isinstance(b, list) and b and isinstance(b[0], ast.stmt):
                 if len(b) > 1:
                     b = [x for x in b if not isinstance(x, ast.Pass)] or b[:1]   # C1 first: a `pass` must not hide a ladder from C11
-                setattr(node, f, [_Canon._as_ternary(x) for x in _Canon._flatten_exits(None, b)])
+                leg = isinstance(node, ast.If) and f == "orelse" and len(b) == 1 and isinstance(b[0], ast.If)
+                setattr(node, f, [_Canon._as_ternary(x) for x in _Canon._flatten_exits(None, b, elif_leg=leg)])
         if isinstance(node, ast.Try):
             for h in node.handlers:
                 h.body = _Canon._flatten_exits(None, h.body)
